@@ -92,7 +92,7 @@ def gen_cases(rng, tier):
             cases.append(dict(shape=sc.gen_shape(rng, kind, "near"), margin=None))
     # almost equal sizes (relative 1e-7 .. 1e-4)
     for kind in ("ellipsoid", "box", "cylinder", "capsule", "cone", "ellipse"):
-        for _ in range(max(2, per // 4)):
+        for _ in range(max(3, per // 2)):
             cases.append(dict(shape=sc.gen_shape(rng, kind, "degen"), margin=None))
     # poses orthonormal only up to 1 ulp (entries 1.0000000000000002): the radicand 1 - a*a hazard
     for kind in ("cylinder", "cone", "disk", "capsule", "ellipsoid", "box", "ellipse"):
